@@ -360,6 +360,8 @@ def run_update_family(ctx, n_quick, n_thorough):
         ctx.mc('Update', 'MC_Update_F18.cfg', expect_violation='C03_ExactCover_ModuloF14', coverage=False)
         ctx.mc('Update', 'MC_Update_F23.cfg', expect_violation='C18_NoInternal', coverage=False)
         ctx.mc('Update', 'MC_Update_F20.cfg', expect_violation='C18_NoInternal', coverage=False)
+        ctx.mc('Update', 'MC_Update_F34.cfg', expect_violation='C10_ForeignKept', coverage=False)
+        ctx.mc('Update', 'MC_Update_F36.cfg', expect_violation='C18_NoInternal', coverage=False)
     # spec -> code: exported behaviours replayed into the real loader
     behs = _export(ctx, 'Update', 'MC_Update.cfg', [], sample=(6000 if thorough else 700), rng=rng)
     out = core.pool_map(d.replay_update, list(enumerate(behs)))
